@@ -165,6 +165,13 @@ def fam_default():
     out.append(p2)
     out.append({'sd': ot, 'kinds': ['codec'], 'params': small})
     out.append({'sd': ot2, 'kinds': ['codec'], 'params': small})
+    # two or more by-value elements with declared defaults: per-element scratch/slot state must not carry over from one
+    # element to the next (an optional field present in one entry and omitted in the following one)
+    two = {'codec': [{'S': 1, 'L': 2, 'M': 2, 'D': 1}]}
+    out.append({'sd': StructDef('DfMv', [Field(1, 'default', ('map', S('i8'), ('struct', LEAFD, False)))]), 'kinds': ['codec'], 'params': two})
+    out.append({'sd': StructDef('DfMvS', [Field(1, 'default', ('map', S('string'), ('struct', LEAFD, False)))]), 'kinds': ['codec'], 'params': two})
+    out.append({'sd': StructDef('DfMvW', [Field(1, 'default', ('map', S('i32'), ('struct', inner_w, False)))]), 'kinds': ['codec'], 'params': two})
+    out.append({'sd': StructDef('DfLv', [Field(1, 'default', ('list', ('struct', LEAFD, False)))]), 'kinds': ['codec'], 'params': two})
     return out
 
 def fam_nocopy():
